@@ -99,6 +99,13 @@ TickArrive(c) ==
   /\ arrived' = [arrived EXCEPT ![c] = now + 1]
   /\ UNCHANGED <<conf, entries, wake, starts, res, obs>>
 
+(* the event loop runs LATE: two units pass at once (something blocked the loop), so whatever was due in between happens
+   only now - a call that was waiting for its slot begins now, and now is what the window remembers *)
+Jump ==
+  /\ Late /\ Rest /\ (now + 1 < MaxT \/ Waiting # {})
+  /\ now' = now + 2
+  /\ UNCHANGED <<conf, entries, lockq, pc, wake, arrived, starts, res, obs>>
+
 (* the wrapped function of call c finishes with a value or an exception *)
 FnEnd(c, o) ==
   /\ Rest /\ pc[c] = "running"
@@ -114,7 +121,7 @@ Cancel(c) ==
   /\ UNCHANGED <<conf, now, entries, wake, arrived, starts, obs>>
 
 Controlled == \/ \E c \in C : Arrive(c) \/ TickArrive(c) \/ Cancel(c) \/ (\E o \in {"val", "exc"} : FnEnd(c, o))
-              \/ Tick
+              \/ Tick \/ Jump
 
 Next == Internal \/ Settle \/ Controlled
 Spec == Init /\ [][Next]_vars /\ WF_vars(Internal) /\ WF_vars(Settle) /\ WF_vars(Tick)
